@@ -280,6 +280,9 @@ class Client(BaseComponent):
 
     @handler('write')
     def write(self, data):
+        if self._sock.fileno() < 0:
+            # disconnected and not connected again yet: nowhere to send it
+            return
         if not self._poller.isWriting(self._sock):
             self._poller.addWriter(self, self._sock)
         self._buffer.append(data)
